@@ -82,6 +82,8 @@ type history struct {
 	// BindPort: the client has a fixed bind port (bind address 0.0.0.0) and sender 0 sends FROM that port number (on its own
 	// loopback address) - where a datagram comes from does not matter
 	BindPort bool `json:"bind_port,omitempty"`
+	// ErrReturn: what the error callback returns (0 true, 1 false, 2 alternating)
+	ErrReturn int `json:"err_return,omitempty"`
 }
 
 // outcome of one datagram according to the protocol model
@@ -144,6 +146,9 @@ type recorder struct {
 	errors    []string
 	errObjs   []error
 	onConnect func()
+	// errReturn: what OnError returns - 0 true, 1 false, 2 alternating. The statement gives the return value no meaning: every
+	// datagram is still answered by exactly one callback and the listener stops only when it is signalled
+	errReturn int
 }
 
 func (r *recorder) OnConnected() {
@@ -172,7 +177,14 @@ func (r *recorder) OnError(err error) bool {
 	}
 	r.errors = append(r.errors, err.Error())
 	r.errObjs = append(r.errObjs, err)
+	n := len(r.errors)
 	r.mu.Unlock()
+	switch r.errReturn {
+	case 1:
+		return false
+	case 2:
+		return n%2 == 0
+	}
 	return true
 }
 
@@ -258,7 +270,7 @@ func run(h history) *rp.Fail {
 				holder.Close()
 			}
 		}
-		rec := &recorder{}
+		rec := &recorder{errReturn: h.ErrReturn}
 		rec.onConnect = func() {
 			send(cy.Hello)
 			if h.WaitInConnected {
@@ -455,6 +467,9 @@ func check(h history) *rp.Fail {
 	if h.WaitInConnected {
 		ev.Class("history/connected-callback-waits-for-its-datagram", 1)
 	}
+	if h.ErrReturn != 0 {
+		ev.Class("history/error-callback-returns-false", 1)
+	}
 	if h.BindPort {
 		ev.Class("history/sender-on-the-client-bind-port", 1)
 	}
@@ -522,6 +537,7 @@ func genHistory(t *rapid.T) history {
 		h.BusyFirst = rapid.IntRange(1, 2).Draw(t, "busy.before")
 	}
 	h.WaitInConnected = rapid.Bool().Draw(t, "wait.in.connected")
+	h.ErrReturn = rapid.SampledFrom([]int{0, 0, 1, 2}).Draw(t, "err.return")
 	h.BindPort = rapid.IntRange(0, 2).Draw(t, "bind.port") == 0 && !h.Calls
 	var pool []uint32
 	for i := rapid.IntRange(0, 3).Draw(t, "configured"); i > 0; i-- {
